@@ -215,12 +215,20 @@ def parallel_part(chk, exprs):
             try:
                 specs = gen_specs(rng, parallel=True)
                 for s in specs:
-                    s.exe_build = s.suite_build = None    # builds under the parallel scheduler are C13's
+                    s.exe_build = s.suite_build = None
+                shared_build = i % 3 == 2
+                if shared_build:
+                    # two executors with different names and the same build command in the same directory: ONE build, needed by
+                    # several worker threads at once; it cannot be repeated on top of itself (a second execution fails)
+                    for k, s in enumerate(specs):
+                        s.exe, s.exe_path, s.exe_build, s.exe_key = ("exeA", "exeB")[k % 2], "/vm", "mkdir obj && make", ("exeA", "exeB")[k % 2]
+                        s.suite = "S_" + s.name
+                    chk.count("parallel_sessions_with_a_build_shared_under_two_names")
                 case = dict(specs=[s.describe() for s in specs], scheduler="parallel")
                 fb = os.path.join(d, "batch.data")
                 for s in specs:
                     s.exclusive = None
-                ref = mh.run_impl(specs, fb, "batch")
+                ref = mh.run_impl(specs, fb, "batch", builds_not_repeatable=shared_build)
                 for s in specs:
                     s.exclusive = False
                 fp = os.path.join(d, "par.data")
@@ -232,7 +240,8 @@ def parallel_part(chk, exprs):
                 rexec.cpu_count = lambda cores=cores: cores
                 mh.RUNS_LEVEL = {"parallel_interference_factor": factor} if factor else None
                 try:
-                    obs = mh.run_impl(specs, fp, sched, seed=rng.randint(0, 999))
+                    obs = mh.run_impl(specs, fp, sched, seed=rng.randint(0, 999), slow_builds=0.03 if shared_build else 0.0,
+                                      builds_not_repeatable=shared_build)
                 finally:
                     rexec.cpu_count = o_cpu
                     mh.RUNS_LEVEL = None
